@@ -69,7 +69,13 @@ contract(S + 'TileLayer._internal_tile_coord', props=['C16', 'C02', 'C09'],
                    if ((tile_request.origin == 'nw' and not (self.grid.grid.origin == 'ul' or self.grid.grid.origin == 'nw'))
                        or (tile_request.origin == 'sw' and not (self.grid.grid.origin == 'll' or self.grid.grid.origin == 'sw'
                                                                 or self.grid.grid.origin is None)))
-                   else tile_request.tile[1])"""],
+                   else tile_request.tile[1])""",
+             # C02: rows are counted from the other edge only on a grid whose tile rows end at that edge - otherwise the flipped
+             # row is not the rectangle a client computes from the advertised origin (such a request is refused instead)
+             """implies((tile_request.origin == 'nw' and not (self.grid.grid.origin == 'ul' or self.grid.grid.origin == 'nw'))
+                        or (tile_request.origin == 'sw' and not (self.grid.grid.origin == 'll' or self.grid.grid.origin == 'sw'
+                                                                 or self.grid.grid.origin is None)),
+                        level_aligned(self.grid.grid, result[2]))"""],
          must_fail='result[0] == 0')
 
 
